@@ -292,7 +292,7 @@ pub fn run(tier: Tier) -> i32 {
     ck.distinct_nontrivial =
         matched_pairs.load(std::sync::atomic::Ordering::Relaxed) + claimed.load(std::sync::atomic::Ordering::Relaxed);
     ck.rule = format!(
-        "exhaustive: all strings over {{a,b,$,/,+,#}} of length <= {flen} as filters ({} strings, {} valid), all strings over {{a,b,$,/}} of length 1..={tlen} as topics ({}), all (valid filter, topic) pairs; all ordered pairs of valid filters of length <= {clen} for covering ({}); strings over {{a,$,/,+,#,e-acute,euro}} of length <= {ulen} for validation and matching. non-trivial = (filter, topic) pairs that match per the reference + filter pairs the library reports as covering",
+        "exhaustive: all strings over {{a,b,$,/,+,#}} of length <= {flen} as filters ({} strings, {} valid), all strings over {{a,b,$,/}} of length 1..={tlen} as topics ({}), all (valid filter, topic) pairs; all ordered pairs of valid filters of length <= {clen} for covering ({}); strings over {{a,$,/,+,#,e-acute,euro}} of length <= {ulen} for validation and matching. non-trivial = (filter, topic) pairs that match per the reference + filter pairs the library reports as covering. Connection part (see per_config): v3 and v5 server, SUBSCRIBE and UNSUBSCRIBE with every list of 1-3 filters over 5 (quick) / 9 (thorough) valid and 5 / 8 invalid filters in every position: a list containing an invalid filter ends the connection with one protocol error before the application sees it, a valid list reaches the protocol service unchanged and is acknowledged",
         all_f.len(),
         valid.len(),
         topics.len(),
@@ -313,6 +313,8 @@ pub fn run(tier: Tier) -> i32 {
     for f in a.findings {
         ck.add_finding(f);
     }
+    // connection part: the validator as the servers apply it to SUBSCRIBE / UNSUBSCRIBE filter lists
+    crate::c18conn::run_conn_part(&mut ck, tier == Tier::Thorough);
     ck.finish()
 }
 
